@@ -665,7 +665,7 @@ func (sh *shared) shouldStop() bool {
 	if sh.stop {
 		return true
 	}
-	if len(sh.viols) >= sh.cfg.MaxViolations || sh.violTotal() >= 50*sh.cfg.MaxViolations || sh.paths >= sh.cfg.MaxPaths {
+	if len(sh.viols) >= sh.cfg.MaxViolations || sh.violTotal() >= 2000000 || sh.paths >= sh.cfg.MaxPaths {
 		sh.stop = true
 		sh.cond.Broadcast()
 		return true
